@@ -81,6 +81,18 @@ OPTIONS_AFFECTING_CACHE: Final = (
         "untyped_calls_exclude",
         "enable_incomplete_feature",
         "install_types",
+        "warn_redundant_casts",
+        "warn_incomplete_stub",
+        "deprecated_calls_exclude",
+        "report_deprecated_as_note",
+        "allow_empty_bodies",
+        "semantic_analysis_only",
+        "show_error_context",
+        "show_absolute_path",
+        "show_error_code_links",
+        "hide_error_codes",
+        "many_errors_threshold",
+        "custom_typing_module",
     }
 ) - {"debug_cache"}
 
